@@ -271,8 +271,114 @@ let run_scan tk =
   let (toks, errs) = get (Scan.scan Gen_Lexer.rules files main) in
   print_tokens toks; print_perrs errs
 
+let print_macros (ms : MacroExtract.macrodef list) =
+  pr " macros=%d" (L.length ms);
+  L.iter (fun (m : MacroExtract.macrodef) ->
+    pr " {prio=%d rule=%d" (int_of_z m.MacroExtract.m_priority) (L.length m.MacroExtract.m_rule);
+    L.iter (fun t -> pr " %s" (tok_s t)) m.MacroExtract.m_rule;
+    pr " cc="; L.iter (fun i -> pr "%d," (int_of_z i)) m.MacroExtract.m_cc;
+    pr " tt="; L.iter (fun i -> pr "%d," (int_of_z i)) m.MacroExtract.m_tt;
+    pr " repl=%d" (L.length m.MacroExtract.m_repl);
+    L.iter (fun t -> pr " %s" (tok_s t)) m.MacroExtract.m_repl;
+    pr "}") ms
+
+let run_extract tk =
+  let (main, files) = read_files tk in
+  let (toks, errs) = get (Scan.scan Gen_Lexer.rules files main) in
+  let ((xerrs, out), macros) = get (MacroExtract.extract_macros toks) in
+  print_tokens out; print_perrs xerrs; print_macros macros
+
+let run_apply tk =
+  let budget = num tk in
+  let (main, files) = read_files tk in
+  let (toks, _) = get (Scan.scan Gen_Lexer.rules files main) in
+  let ((_, out), macros) = get (MacroExtract.extract_macros toks) in
+  let (errs, res) = get (MacroApply.apply_macros out macros (nat_of_int budget)) in
+  print_tokens res; print_perrs errs
+
+(* ---- LR generator ---- *)
+let read_sym (w : string) : Grammar.sym =
+  if w = "e" then Grammar.Eps
+  else begin
+    let idx = n_of_int (int_of_string (Stdlib.String.sub w 1 (Stdlib.String.length w - 1))) in
+    if Stdlib.String.get w 0 = 't' then Grammar.Tm idx else Grammar.Nt idx
+  end
+let sym_s = function
+  | Grammar.Eps -> "e"
+  | Grammar.Tm i -> "t" ^ string_of_int (int_of_n i)
+  | Grammar.Nt i -> "n" ^ string_of_int (int_of_n i)
+
+(* returns the grammar and the table (lhs, alternative index) -> rule number *)
+let read_grammar tk =
+  let nnt = num tk in
+  let g = ref Grammar.empty_grammar in
+  for _ = 1 to nnt do g := fst (Grammar.create_nt !g) done;
+  let nr = num tk in
+  let tags = ref [] in
+  for r = 0 to nr - 1 do
+    let lhs = read_sym (next tk) in
+    let k = num tk in
+    let rhs = times k (fun () -> read_sym (next tk)) in
+    (match lhs with
+     | Grammar.Nt _ ->
+         let alt = L.length (Grammar.rs_get !g lhs) in
+         tags := ((sym_s lhs, alt), r) :: !tags;
+         g := Grammar.add_rule !g lhs rhs
+     | _ -> ())
+  done;
+  (!g, !tags)
+
+let print_first (g : Grammar.grammar) =
+  pr "first=";
+  L.iter (fun (s, set) ->
+    pr "%s:" (sym_s s); L.iter (fun x -> pr "%s," (sym_s x)) set; pr ";") g.Grammar.first_sets;
+  pr " maxterm=%d" (int_of_n g.Grammar.max_term)
+
+let run_first tk =
+  let (g, _) = read_grammar tk in
+  let g' = get (Grammar.calculate_first_sets g) in
+  print_first g'
+
+let run_lr tk =
+  let prefix = num tk <> 0 in
+  let eofi = n_of_int (num tk) in
+  let start = read_sym (next tk) in
+  let (g, tags) = read_grammar tk in
+  let (((g', tab), confs), states) =
+    get (LR.generate_tables (nat_of_int 20000) g prefix start (Grammar.Tm eofi)) in
+  print_first g';
+  pr " states=%d" (L.length states);
+  L.iter (fun st ->
+    pr " [";
+    L.iter (fun e -> pr "%s.%d.%d.%s," (sym_s e.LR.i_left) (int_of_n e.LR.i_alt) (int_of_n e.LR.i_dot) (sym_s e.LR.i_follow)) st.LR.st_items;
+    pr "|";
+    L.iter (fun (s, t) -> pr "%s>%d," (sym_s s) (int_of_z t)) st.LR.st_jump;
+    pr "]") states;
+  pr " conflicts=%d" (L.length confs);
+  L.iter (fun c ->
+    let tag = match c.LR.cf_tag with LR.Coq_c_ps -> "ps" | LR.Coq_c_prr -> "prr" | LR.Coq_c_prs -> "prs" | LR.Coq_c_ar -> "ar" | LR.Coq_c_as -> "as" in
+    pr " %d:%s:%d:%d" (int_of_z c.LR.cf_type) tag (int_of_z c.LR.cf_state) (int_of_z c.LR.cf_term)) confs;
+  let j = num tk in
+  pr " parses=%d" j;
+  let sem lhs alt popped =
+    let r = try L.assoc (sym_s lhs, int_of_n alt) tags with Not_found -> -1 in
+    "(r" ^ string_of_int r ^ Stdlib.String.concat "" (L.map (fun x -> " " ^ x) popped) ^ ")" in
+  for _ = 1 to j do
+    let n = num tk in
+    let input = times n (fun () -> num tk) in
+    match LR.parse (fun t -> n_of_int t) (fun t -> "t" ^ string_of_int t) sem tab (nat_of_int 100000) input with
+    | Base.Ok (Some v) -> pr " A%s" (hex v)
+    | Base.Ok None -> pr " R"
+    | Base.UB k -> raise (Stop ("UB " ^ ub_name k))
+    | Base.Fuel -> raise (Stop "FUEL")
+  done
+
 let run_case tk =
   match next tk with
+  | "extract" -> run_extract tk
+  | "apply" -> run_apply tk
+  | "first" -> run_first tk
+  | "lr" -> run_lr tk
   | "vm" -> run_vm tk
   | "scan" -> run_scan tk
   | _ -> pr "NOTMODELLED"
